@@ -108,16 +108,27 @@ Definition route_length (nd h : nat) (d : nat -> nat -> Z) (opn : bool) (r : mro
 Definition route_late (nd h : nat) (d : nat -> nat -> Z) (r : mroute) : Z :=
   match walk_acc nd h d (rdep r) 0 (rcus r) with (_, late, _) => late end.
 
+(* sum of the SQUARES of the distances travelled by the vehicle when it reaches each delivery node *)
+Fixpoint walk_sq (nd h : nat) (d : nat -> nat -> Z) (from : nat) (t : Z) (l : list nat) : Z :=
+  match l with
+  | [] => 0
+  | a :: r => let t' := t + d from a in (if is_del nd h a then t' * t' else 0) + walk_sq nd h d a t' r
+  end.
+Definition route_late_sq (nd h : nat) (d : nat -> nat -> Z) (r : mroute) : Z := walk_sq nd h d (rdep r) 0 (rcus r).
+
 Definition maxZ (l : list Z) : Z := match l with [] => 0 | x :: r => fold_left Z.max r x end.
 
 (* cost of a solution, in units of [one] (the scaled 1.0) times the distance unit:
-   mode 0 min-sum, 1 min-max, 2 lateness with weight w (w = one: lateness only; w = 0: length only) *)
+   mode 0 min-sum, 1 min-max, 2 lateness with weight w (w = one: lateness only; w = 0: length only),
+   mode 3 lateness-square: the squared arrival distances take the place of the arrival distances (a square of a
+   distance carries one more factor of the scale, so this mode is in units of [one]^2 times the distance unit) *)
 Definition md_cost (nd h : nat) (d : nat -> nat -> Z) (opn : bool) (mode : nat) (one w : Z) (rs : list mroute) : Z :=
   let lens := map (route_length nd h d opn) rs in
   match mode with
   | O => one * sumZ lens
   | S O => one * maxZ lens
-  | _ => (one - w) * sumZ lens + w * sumZ (map (route_late nd h d) rs)
+  | S (S O) => (one - w) * sumZ lens + w * sumZ (map (route_late nd h d) rs)
+  | _ => one * (one - w) * sumZ lens + w * sumZ (map (route_late_sq nd h d) rs)
   end.
 Definition md_objective (nd h : nat) (d : nat -> nat -> Z) (opn : bool) (mode : nat) (one w : Z) (acts : list nat) : option Z :=
   match parse nd acts with
